@@ -608,8 +608,12 @@ class SimpleShapeMixin(BaseShapeProtocol, ABC):
         """
         Creates a corresponding geostructure from a shapely object
         """
+        import shapely  # pylint: disable=import-outside-toplevel
+
+        # shape.wkt keeps 16 significant digits only; 17 are needed to get every float back, that
+        # is up to 21 decimal places for the smallest numbers written without an exponent
         return cls.from_wkt(
-            shape.wkt,
+            shapely.to_wkt(shape, rounding_precision=21),
             dt=dt,
             properties=properties
         )
